@@ -307,7 +307,7 @@ def walk_syntactic(E):
               and 'walk_with_symlinks' in ast.unparse(b)]
         pre = '\n'.join(texts[:yi[0]]) if yi else ''
         ok = (len(yi) == 1 and len(li) == 1 and yi[0] < li[0] and 'dirs.sort()' in pre and 'files.sort()' in pre
-              and 'dirs[:] = [d for d in dirs if d not in options.ignore_dir]' in pre
+              and any(t.startswith('dirs[:] =') and 'ignore_dir' in t for t in texts[:yi[0]])
               and not any('dirs' in t and ('=' in t.split('\n')[0]) for t in texts[yi[0] + 1:li[0]]))
     E.syntactic_obligation("walk_with_symlinks sorts dirs and files, drops ignored directories in place, yields the triple and "
                            "only then follows symlinks among the (consumer-pruned) dirs", ok, props=('C14', 'C15'))
